@@ -10,10 +10,13 @@ parts
   interval     : all (start, end) pairs over an alphabet of instants + None: construction, has_start/has_end,
                  start/end/duration raise exactly when unbounded, membership of every alphabet instant, ==/hash.
   yearmonth    : YearMonth.to_date_interval == the run of days carrying that (year, month) on the day-number line.
+  cross-calendar: histories inside one process - the same (y, m, d) field pairs asked in every calendar in which they are valid, in
+                 several calendar orders; every answer against the day-number set of the calendar asked (catches state kept
+                 between calls that forgets the calendar; per-calendar workers can never see that).
 """
 from __future__ import annotations
 
-from pyoda_time import CalendarSystem, DateInterval, Duration, Instant, Interval, LocalDate, YearMonth
+from pyoda_time import CalendarSystem, DateInterval, Duration, Instant, Interval, LocalDate, Period, YearMonth
 
 from vf.core.evidence import Acc
 from vf.core.par import pmap
@@ -136,8 +139,8 @@ def w_dateinterval(job):
                 acc.count(transitions=4 + w + len(ext), evaluations=4 + w + len(ext))
                 if iv.start != days[a] or iv.end != days[b] or iv.calendar != cal:
                     acc.violation("%s/start-end/%s/%s" % (P, kk, single), "start/end/calendar differ from the constructor arguments", case)
-                if len(iv) != len(sa):
-                    acc.violation("%s/len/%s/%s" % (P, kk, single), "len %d, set has %d days" % (len(iv), len(sa)), case)
+                if _len(iv) != len(sa):
+                    acc.violation("%s/len/%s/%s" % (P, kk, single), "len %d, set has %d days" % (_len(iv), len(sa)), case)
                 got = list(iv)
                 if got != days[a:b + 1]:
                     acc.violation("%s/iter/%s/%s" % (P, kk, single), "iteration yields %r" % ([dl.ymd(x) for x in got[:12]],), case)
@@ -336,8 +339,8 @@ def w_yearmonth(job):
                 acc.count(evaluations=5)
                 if (iv.start.year, iv.start.month, iv.end.year, iv.end.month) != (y, m, y, m) or iv.calendar != cal:
                     acc.violation(K % "wrong-month", "interval %s is not inside %d-%02d" % (_describe(iv), y, m), case)
-                if len(iv) != en - sn + 1 or len(iv) != dim:
-                    acc.violation(K % "len", "len %d, day numbers span %d, get_days_in_month %d" % (len(iv), en - sn + 1, dim), case)
+                if _len(iv) != en - sn + 1 or _len(iv) != dim:
+                    acc.violation(K % "len", "len %d, day numbers span %d, get_days_in_month %d" % (_len(iv), en - sn + 1, dim), case)
                 if sn > lo:
                     p = dl.from_daynum(sn - 1, cal)
                     if (p.year, p.month) == (y, m):
@@ -362,6 +365,106 @@ def w_yearmonth(job):
             acc.sample({"part": "yearmonth", "calendar": cid, "year": y, "months": cal.get_months_in_year(y)})
     acc.count(nontrivial=len(shapes))
     return acc
+
+
+# ----------------------------------------------------------------------------------------------- cross-calendar history
+def cross_years(tier):
+    return [500, 1400, 1900] if tier == "quick" else [500, 501, 998, 1318, 1400, 1450, 1499, 1900, 1910, 5000]
+
+
+def _len(x):
+    """the raw __len__ value: builtin len() would turn a negative library answer into a ValueError raised in harness code"""
+    return x.__len__()
+
+
+def w_cross(job):
+    """ONE process, one history: the same (year, month, day) field values asked in many calendars one after another.
+    Every answer is compared with the day-number set model of the calendar it was asked in, so any state the library keeps
+    between calls (memo tables, caches keyed without the calendar) shows up as a wrong length / union / membership."""
+    tier, order, seed = job
+    acc = Acc()
+    years = cross_years(tier)
+    fields, valid = dl.cross_fields(years)
+    per_year = len(fields) // len(years)
+    groups = [fields[i * per_year:(i + 1) * per_year] for i in range(len(years))]
+    pairs = [(g[i], g[j]) for g in groups for i in range(len(g)) for j in range(i + 1, len(g))]
+    group_of = {f: g for g in groups for f in g}
+    cids = [cid for cid, _ in dl.calendars()]
+    steps = dl.history_orders(pairs, cids, seed)[order]
+    prev = None
+    shapes = set()
+    for k, ((fa, fb), cid) in enumerate(steps):
+        a, b = valid[fa].get(cid), valid[fb].get(cid)
+        if a is None or b is None:
+            continue
+        na, nb = dl.daynum(a), dl.daynum(b)
+        if na > nb:      # month order differs (Hebrew Scriptural): the interval runs the other way in this calendar
+            a, b, na, nb, fa, fb = b, a, nb, na, fb, fa
+        acc.count(states=1)
+        case = {"kind": "cross", "order": order, "step": k, "calendar": cid, "start": list(fa), "end": list(fb), "previous_step": prev}
+        K = "C18/cross-calendar/%%s/%s" % cid
+        hint = " (history %s, step %d, previous step %s)" % (order, k, prev)
+        shapes.add((cid, nb - na))
+        try:
+            iv = DateInterval(a, b)
+            sa = ref.dset(na, nb)
+            ops = [("len", lambda: _len(iv), nb - na + 1), ("days_between", lambda: Period.days_between(a, b), nb - na),
+                   ("days_between-reversed", lambda: Period.days_between(b, a), na - nb)]
+            if k % 2:
+                ops.reverse()          # vary which operation meets the library state first
+            for name, fn, exp in ops:
+                acc.count(transitions=1, evaluations=1)
+                got = fn()
+                if got != exp:
+                    acc.violation(K % name, "%s of %s..%s in %s gives %r, day numbers say %r%s" % (name, fa, fb, cid, got, exp, hint), case, py=_py_cross(steps[:k + 1], valid, name))
+            g = group_of[fa]
+            for f in g:
+                d = valid[f].get(cid)
+                if d is None:
+                    continue
+                acc.count(transitions=1, evaluations=1)
+                exp = na <= dl.daynum(d) <= nb
+                if (d in iv) != exp:
+                    acc.violation(K % "contains-day", "%s in [%s, %s] (%s) gives %r, model %r%s" % (f, fa, fb, cid, d in iv, exp, hint), case)
+            if nb - na < 40:
+                acc.count(transitions=1, evaluations=1)
+                if [dl.daynum(x) for x in iv] != list(range(na, nb + 1)):
+                    acc.violation(K % "iter", "iteration of [%s, %s] in %s does not yield day numbers %d..%d%s" % (fa, fb, cid, na, nb, hint), case)
+            for i in (0, 4, 8):
+                c, d = valid[g[i]].get(cid), valid[g[i + 2]].get(cid)
+                if c is None or d is None:
+                    continue
+                nc, nd = dl.daynum(c), dl.daynum(d)
+                if nc > nd:
+                    c, d, nc, nd = d, c, nd, nc
+                J = DateInterval(c, d)
+                sb = ref.dset(nc, nd)
+                acc.count(transitions=4, evaluations=4)
+                eu, ei = ref.union(sa, sb), ref.inter(sa, sb)
+                gu, gi = iv | J, iv & J
+                if (gu is None) != (eu is None) or (gu is not None and (dl.daynum(gu.start), dl.daynum(gu.end), _len(gu)) != (eu[0], eu[1], eu[1] - eu[0] + 1)):
+                    acc.violation(K % "or", "union of [%s, %s] and [%s, %s] in %s gives %s, sets say %s%s" % (fa, fb, g[i], g[i + 2], cid, _describe(gu), eu, hint), case)
+                if (gi is None) != (ei is None) or (gi is not None and (dl.daynum(gi.start), dl.daynum(gi.end), _len(gi)) != (ei[0], ei[1], ei[1] - ei[0] + 1)):
+                    acc.violation(K % "and", "intersection of [%s, %s] and [%s, %s] in %s gives %s, sets say %s%s" % (fa, fb, g[i], g[i + 2], cid, _describe(gi), ei, hint), case)
+                if (J in iv) != (sb <= sa) or _len(J) != nd - nc + 1:
+                    acc.violation(K % "contains-interval", "[%s, %s] in [%s, %s] (%s) gives %r / len %d, model %r / %d%s" % (g[i], g[i + 2], fa, fb, cid, J in iv, _len(J), sb <= sa, nd - nc + 1, hint), case)
+            acc.outcome("cross:%s" % ("span<=31" if nb - na <= 31 else "span<=200" if nb - na <= 200 else "span>200"))
+        except Exception as e:  # noqa: BLE001
+            acc.lib_exception("C18/cross-calendar/%s" % cid, e, case)
+        prev = [list(fa), list(fb), cid]
+    acc.sample({"part": "cross-calendar", "order": order, "steps": len(steps), "years": years, "pairs": len(pairs), "head": [[list(p[0]), list(p[1]), c] for p, c in steps[:4]]})
+    acc.note("classes", sorted("%s/span%d" % c for c in shapes))
+    return acc
+
+
+def _py_cross(steps, valid, name):
+    """standalone history: the last two steps with the same field pair are enough for a state carried between calendars"""
+    (fa, fb), cid = steps[-1]
+    others = [c for (p, c) in steps[:-1] if p == (fa, fb) and valid[fa].get(c) is not None and valid[fb].get(c) is not None][-3:]
+    return ("from pyoda_time import CalendarSystem, DateInterval, LocalDate, Period\n\n\ndef test_replay():\n    fa, fb = %r, %r\n"
+            "    for cid in %r:      # the history: same field values, other calendars first\n        cal = CalendarSystem.for_id(cid)\n"
+            "        a, b = sorted([LocalDate(*fa, cal), LocalDate(*fb, cal)])\n        n = 0\n        d = a\n        while d != b:\n            d = d.plus_days(1)\n            n += 1\n"
+            "        assert len(DateInterval(a, b)) == n + 1, cid\n        assert Period.days_between(a, b) == n, cid\n" % (fa, fb, others + [cid]))
 
 
 # ----------------------------------------------------------------------------------------------- driver
@@ -397,8 +500,19 @@ def run(ctx):
                 y += step
         for acc in pmap(w_yearmonth, jobs):
             ctx.merge_part("yearmonth", acc)
+    if not only or "cross-calendar" in only:
+        classes = set()
+        for acc in pmap(w_cross, [(ctx.tier, o, ctx.seed) for o in ("pair-major-forward", "pair-major-reverse", "calendar-major", "interleaved")]):
+            classes |= set(acc.notes.pop("classes", []))
+            ctx.merge_part("cross-calendar", acc)
+        fin = Acc()
+        fin.count(nontrivial=len(classes))      # distinct (calendar, span in days) of the shared field pairs
+        ctx.merge_part("cross-calendar", fin)
+    dl.report_disagreements(ctx, "C18")
     ctx.note("calendars", len(cals))
-    ctx.rule = ("dateinterval: per calendar, every window of W consecutive days straddling the range start, the range end and every "
+    ctx.rule = ("cross-calendar: four histories, each inside ONE process: every ordered pair of 11 (year, month, day) field triples per listed year that are valid "
+                "in 17-18 calendars at once, asked in every calendar in sequence (pair-major forward / reverse, calendar-major, interleaved) - len, days_between both "
+                "ways, membership, iteration, union / intersection / containment - each answer against that calendar's day numbers; non-trivial = distinct (calendar, span). ""dateinterval: per calendar, every window of W consecutive days straddling the range start, the range end and every "
                 "month/year seam of a leap year and the next year (W=7 quick, 9 thorough): all W(W+1)/2 intervals and all ordered pairs; "
                 "non-trivial = distinct (calendar, seam kind, relative position class) triples, position classes being identical/adjacent/gap1/gap2+/"
                 "overlap/nested(+touching) x before/after. interval: all (start,end) over the instant alphabet + None; non-trivial = distinct "
@@ -424,6 +538,8 @@ def replay(rec):
         return key in r.violations
     if key.startswith("C18/interval/"):
         return key in w_interval(rec.get("tier", "quick")).violations
+    if key.startswith("C18/cross-calendar/"):
+        return key in w_cross((rec.get("tier", "quick"), case["order"], rec.get("seed", 0))).violations
     if key.startswith("C18/yearmonth/"):
         y = case["year"]
         return key in w_yearmonth((case["calendar"], "thorough", 0, y, y + 1)).violations
